@@ -303,6 +303,8 @@ class _Inliner:
           h.body = self._do_block(h.body, fn, mod_helpers, meths)
       rep = self._try_inline(st, fn, mod_helpers, meths)
       if rep is None:
+        rep = self._hoist(st, fn, mod_helpers, meths)
+      if rep is None:
         out.append(st)
       else:
         out.extend(rep)
@@ -318,6 +320,102 @@ class _Inliner:
       is_static = any(isinstance(d, ast.Name) and d.id == 'staticmethod' for d in h.decorator_list)
       return h, (None if is_static else f.value)
     return None
+
+  # ------------------------------------------------------------------ hoisting of nested helper calls
+  def _first_hoistable(self, st: ast.stmt, fn, mod_helpers, meths) -> Optional[ast.Call]:
+    """The first private-helper call (in evaluation order) of a simple statement, provided everything evaluated
+    before it is a plain load (names, attributes, constants): hoisting it in front of the statement is then exact."""
+    if isinstance(st, ast.Expr):
+      roots = [st.value]
+    elif isinstance(st, ast.Return) and st.value is not None:
+      roots = [st.value]
+    elif isinstance(st, ast.Assign) and all(isinstance(t, ast.Name) for t in st.targets):
+      roots = [st.value]
+    elif isinstance(st, ast.AnnAssign) and st.value is not None and isinstance(st.target, ast.Name):
+      roots = [st.value]
+    else:
+      return None
+    found: List[ast.Call] = []
+
+    class Stop(Exception):
+      pass
+
+    def go(e: ast.AST, top: bool):
+      if isinstance(e, (ast.Name, ast.Constant)):
+        return
+      if isinstance(e, ast.Attribute):
+        go(e.value, False)
+        return
+      if isinstance(e, ast.Call):
+        go(e.func, False)
+        for a in e.args:
+          if isinstance(a, ast.Starred):
+            raise Stop()
+          go(a, False)
+        for k in e.keywords:
+          if k.arg is None:
+            raise Stop()
+          go(k.value, False)
+        if not top and self._resolve(e, fn, mod_helpers, meths) is not None:
+          found.append(e)
+        raise Stop()  # anything after another call is not hoistable
+      if isinstance(e, ast.BinOp):
+        go(e.left, False)
+        go(e.right, False)
+        return
+      if isinstance(e, ast.UnaryOp):
+        go(e.operand, False)
+        return
+      if isinstance(e, ast.Compare):
+        go(e.left, False)
+        if len(e.comparators) == 1:
+          go(e.comparators[0], False)
+          return
+        raise Stop()
+      if isinstance(e, ast.Subscript):
+        go(e.value, False)
+        go(e.slice, False)
+        return
+      if isinstance(e, (ast.Tuple, ast.List)):
+        for x in e.elts:
+          if isinstance(x, ast.Starred):
+            raise Stop()
+          go(x, False)
+        return
+      if isinstance(e, ast.Slice):
+        for x in (e.lower, e.upper, e.step):
+          if x is not None:
+            go(x, False)
+        return
+      raise Stop()  # IfExp, BoolOp, comprehensions, lambdas, f-strings, ...: evaluation is conditional / repeated
+
+    try:
+      for r in roots:
+        go(r, True)
+    except Stop:
+      pass
+    return found[0] if found else None
+
+  def _hoist(self, st: ast.stmt, fn, mod_helpers, meths) -> Optional[List[ast.stmt]]:
+    c = self._first_hoistable(st, fn, mod_helpers, meths)
+    if c is None:
+      return None
+    self.uid += 1
+    tmp = f'hoisted__{self.uid}'
+    asg = ast.copy_location(ast.Assign(targets=[ast.Name(id=tmp, ctx=ast.Store())], value=c), st)
+
+    class Rep(ast.NodeTransformer):
+      def visit_Call(self, node):
+        if node is c:
+          return ast.copy_location(ast.Name(id=tmp, ctx=ast.Load()), node)
+        return self.generic_visit(node)
+    st2 = Rep().visit(st)
+    ast.fix_missing_locations(asg)
+    first = self._try_inline(asg, fn, mod_helpers, meths)
+    if first is None:
+      return None
+    rest = self._try_inline(st2, fn, mod_helpers, meths) or self._hoist(st2, fn, mod_helpers, meths) or [st2]
+    return first + rest
 
   def _try_inline(self, st: ast.stmt, fn, mod_helpers, meths) -> Optional[List[ast.stmt]]:
     call = None
